@@ -308,6 +308,39 @@ def systematic(B, I, R):
                                                    "P %s -" % hexs("int:syncmode = %d" % a), "B 3 0", "X"]})
                     cases.append({"lp": 0, "ops": ["I %d %d" % (k, s0), "LOADLP", "P %s -" % hexs("int:syncmode = %d" % a), "C I %d %d" % (k, b),
                                                    "I %d %d" % (k, a), "V 1"]})
+    # settings files: every line is parsed on its own.  A line that stops right after the parameter name (no '=') is
+    # rejected whatever an earlier, longer line left behind it in the reader's line buffer; the same for a line that
+    # stops after the type, after the ':' and after the '='.  The earlier line is laid out so that its tail, read on
+    # from the terminator of the short line, would be a complete "= value".
+    def leftovers(prefix, tail):
+        # a comment line with `tail` starting one byte behind the end of `prefix`, and the same as an assignment
+        pad = "#" + "x" * (len(prefix) - 1)
+        return [pad + " " + tail, pad + "\t" + tail, "#" + " " * (len(prefix)) + tail]
+    ops = []
+    for ty, plist, vals in (("int", I, None), ("bool", B, ["true", "false"]), ("real", R, None)):
+        for i, p in enumerate(plist):
+            if ty == "int":
+                vs = [str(a) for a in p["acc"] if a != p["def"]][:2]
+            elif ty == "real":
+                vs = ["%r" % v for v in (p["lo"], p["up"], p["lo"] / 2 + p["up"] / 2) if v != p["def"] and abs(v) < 1e300][:2]
+            else:
+                vs = ["false" if p["def"] else "true"]
+            for v in vs:
+                for prefix, tail in ((ty + ":" + p["name"], "= " + v), (ty + ":" + p["name"] + " =", v), (ty + ":" + p["name"] + "=", " " + v),
+                                     (ty, ":" + p["name"] + " = " + v), (ty + ":", p["name"] + " = " + v)):
+                    for first in leftovers(prefix, tail)[: (3 if i % 4 == 0 else 1)]:
+                        ops.append("L %s - %s -" % (hexs(first), hexs(prefix)))
+                # the other way round in one file: the complete line first, then the truncated one of another parameter
+                q = plist[(i + 1) % len(plist)]
+                if len(q["name"]) == len(p["name"]) and q["name"] != p["name"]:
+                    ops.append("L %s %s %s -" % (hexs("%s:%s = %s" % (ty, p["name"], v)), dy(float(v)) if ty == "real" else "-",
+                                                 hexs("%s:%s" % (ty, q["name"]))))
+            if len(ops) > 120:
+                cases.append({"lp": 0, "ops": ops + ["V 1"]})
+                ops = []
+    ops.append("L %s - %s -" % (hexs("#2345678901234567= 77"), hexs("uint:random_seed")))
+    ops.append("L %s - %s -" % (hexs("uint:random_seed = 5"), hexs("uint:random_seed")))
+    cases.append({"lp": 0, "ops": ops + ["V 1"]})
     # copy-settings across sync modes and back
     if si:
         for a in (0, 1, 2):
